@@ -47,11 +47,12 @@ pub fn replay_probe<H: HB>(c: &Case, q: &AnyQ<H>, m: &Model, unordered: bool) ->
 pub fn all_probes<H: HB>(prop: &str, universe: &[u32]) -> Vec<Box<dyn Probe<H>>> {
     let prios: Vec<i32> = vec![0, 1, 2];
     match prop {
-        "C06" => vec![Box::new(IterPrograms { which: vec![It::Sorted], extra_len: 2, sorted_vecs: true, adaptors: false })],
+        "C06" => vec![Box::new(IterPrograms { which: vec![It::Sorted], extra_len: 2, sorted_vecs: true, adaptors: false, full_upto: 12 })],
+        "C06d" => vec![Box::new(IterPrograms { which: vec![It::Sorted], extra_len: 2, sorted_vecs: true, adaptors: false, full_upto: 7 })],
         "C09" => vec![Box::new(IterMutPrograms { extra_len: 3, prios, lite: false })],
         "C09m" => vec![Box::new(IterMutPrograms { extra_len: 1, prios, lite: true })],
-        "C13m" => vec![Box::new(IterPrograms { which: vec![It::Iter, It::IntoIter, It::Drain, It::Sorted], extra_len: 1, sorted_vecs: false, adaptors: false })],
-        "C13" => vec![Box::new(IterPrograms { which: vec![It::Iter, It::IterRef, It::IntoIter, It::Drain, It::Sorted], extra_len: 2, sorted_vecs: false, adaptors: true })],
+        "C13m" => vec![Box::new(IterPrograms { which: vec![It::Iter, It::IntoIter, It::Drain, It::Sorted], extra_len: 1, sorted_vecs: false, adaptors: false, full_upto: 12 })],
+        "C13" => vec![Box::new(IterPrograms { which: vec![It::Iter, It::IterRef, It::IntoIter, It::Drain, It::Sorted], extra_len: 2, sorted_vecs: false, adaptors: true, full_upto: 12 })],
         "C16" => vec![Box::new(EmptiedLikeFresh { universe: universe.to_vec(), prios })],
         "C11" => vec![Box::new(OfferedVsStored { universe: universe.to_vec() })],
         "C08" => vec![Box::new(BulkMutationPrograms { universe: universe.to_vec(), prios, all_tables: false })],
@@ -218,10 +219,15 @@ fn drive<T>(
 }
 
 fn programs(len: usize, back: bool) -> Vec<Vec<St>> {
+    programs_upto(len, back, 12)
+}
+
+/// all 2^len programs up to `full_upto` calls, a structured family beyond
+fn programs_upto(len: usize, back: bool, full_upto: usize) -> Vec<Vec<St>> {
     if !back {
         return vec![vec![St::Next; len]];
     }
-    if len > 12 {
+    if len > full_upto {
         // deep queues: a structured family instead of all 2^len programs: j calls from one end
         // then the rest from the other (every j, both ways), alternations with every period
         let mut out: Vec<Vec<St>> = vec![];
@@ -288,6 +294,8 @@ pub struct IterPrograms {
     pub extra_len: usize,
     pub sorted_vecs: bool,
     pub adaptors: bool,
+    /// programs longer than this come from the structured family
+    pub full_upto: usize,
 }
 
 impl IterPrograms {
@@ -345,7 +353,7 @@ impl IterPrograms {
             if w != It::Sorted && fwd.len() != n {
                 return Err(format!("{w:?}: a full forward traversal yields {} elements of {n}", fwd.len()));
             }
-            let mut progs = programs(len, back);
+            let mut progs = programs_upto(len, back, self.full_upto);
             if w != It::Sorted && self.extra_len > 1 {
                 progs.extend(nth_programs(n, back));
             }
